@@ -25,7 +25,7 @@ EXHAUSTIVE_SUBDOMAINS = []
 ASSUMPTIONS = ["pulse samples carry the amplitude plus a small share of the noise; low samples carry noise only", "regime R2 (noise between 0.2 x and 0.316 x the weakest pulse, i.e. 10-13.5 dB SNR) was the recorded finding eof-threshold-below-noise until fix b07124f; it is now judged as strictly as R1",
                "R1 = noise peak below the demodulator's own end-of-frame threshold (0.2 x strongest pulse of the frame)"]
 REQUIRED = ["r1_buffers", "r2_buffers", "second_buffer", "second_buffer_short_tail", "min_gap_after_short", "min_gap_after_long", "df17", "df20", "df21", "df4", "df5", "df11", "offset_even", "offset_odd",
-            "corrupted_df17_rejected", "pure_noise", "multi_frame", "same_frame_twice_in_a_row", "second_reader_alive", "sessions", "session_buffer_11_or_later", "big_busy_first_buffer"]
+            "corrupted_df17_rejected", "pure_noise", "multi_frame", "same_frame_twice_in_a_row", "second_reader_alive", "sessions", "session_buffer_11_or_later", "big_busy_first_buffer", "buffer_longer_than_nominal_size"]
 
 
 def reader():
@@ -205,6 +205,8 @@ def m_session(ctx, case):
         if bi >= 10:
             ctx.hit("session_buffer_11_or_later")
     ctx.hit("big_busy_first_buffer" if case.get("big") else "sessions")
+    if case.get("big") and len(case["buffers"][0]) > 1000:
+        ctx.hit("buffer_longer_than_nominal_size")
     ctx.nontrivial(("s", case["bseed"]))
 
 
@@ -245,7 +247,7 @@ def mksession(rng):
 def mkbig(rng):
     """one buffer of the size the real reader processes (hundreds of 100 us windows), busy from the first to the last sample
     except for ONE or two short pauses, with a few weaker replies among the strong ones"""
-    n_fr = rng.choice((500, 850, 850))
+    n_fr = rng.choice((500, 850, 850, 1150))     # 1150 frames: more samples than the reader's nominal buffer size (204800)
     fr = []
     pauses = set(rng.sample(range(10, n_fr - 10), 1))
     weak = set(rng.sample(range(5, n_fr - 5), rng.choice((2, 4, 8))))
@@ -349,4 +351,10 @@ def cases(ctx):
     for k in range(ctx.share(48 if quick else 800)):
         yield "session", mksession(rng)
     for k in range(ctx.share(16 if quick else 160)):
-        yield "session", mkbig(rng)
+        c = mkbig(rng)
+        if k == 0 and len(c["buffers"][0]) <= 1000:
+            tail_ = [dict(f) for f in c["buffers"][0][: 1150 - len(c["buffers"][0])]]   # every shard: one over-long buffer
+            c["buffers"][0][-1]["gap"] = 2 * (len(c["buffers"][0][-1]["hex"]) * 4) + 4
+            tail_[-1]["gap"] = 3
+            c["buffers"][0] = c["buffers"][0] + tail_
+        yield "session", c
